@@ -151,3 +151,30 @@ Example c12_example_queue :
   snd (urun 0 16 128 uq_init ops) = snd (fifo_run [] ops) /\
   map (@length Z) (blocks (fst (urun 0 16 128 uq_init ops))) = [16; 2]%nat.
 Proof. vm_compute. split; reflexivity. Qed.
+
+(* ------------------------------------------------------------------------------------------
+   The same facts stated about the definitions tools/gofunc regenerates from deque.go /
+   unbounded.go on every run (Generated/Deque.v; lemmas in C12/Source.v): if prev, next, Len or
+   Cap change in the source, these are the obligations that are re-checked. *)
+From FV Require Import Generated.Deque C12.Source.
+
+(* the model's ring-index helpers are the translated source *)
+Theorem c12_src_is_model : forall (A : Type) (d : @deque A) i,
+  cap d < 2 ^ 63 -> - 2 ^ 63 < i < 2 ^ 63 - 1 ->
+  go_Deque_next (cap d) i = next d i /\ go_Deque_prev (cap d) i = prev d i /\
+  go_Deque_Len (count d) = count d /\ go_Deque_Cap (cap d) = cap d.
+Proof. exact src_is_model. Qed.
+Print Assumptions c12_src_is_model.
+
+Theorem c12_src_queue_len : forall (A : Type) (q : @uq A), go_UnboundedQueue_Len (qlen q) = qlen q.
+Proof. exact @src_uq_len. Qed.
+Print Assumptions c12_src_queue_len.
+
+(* on a buffer of 2^k slots the source's next / prev are the successor / predecessor modulo
+   the capacity, and undo each other *)
+Theorem c12_src_ring_step : forall k i, 0 <= k < 63 -> 0 <= i < 2 ^ k ->
+  go_Deque_next (2 ^ k) i = (i + 1) mod 2 ^ k /\ go_Deque_prev (2 ^ k) i = (i - 1) mod 2 ^ k /\
+  go_Deque_prev (2 ^ k) (go_Deque_next (2 ^ k) i) = i /\
+  go_Deque_next (2 ^ k) (go_Deque_prev (2 ^ k) i) = i.
+Proof. exact src_ring_step. Qed.
+Print Assumptions c12_src_ring_step.
